@@ -25,6 +25,8 @@ def teardown(_):
 
 def gen_content(rng, maxs=4, maxv=5):
     ns, nv = rng.randint(1, maxs), rng.randint(1, maxv)
+    if rng.random() < 0.04:
+        ns, nv = rng.randint(17, 40), rng.randint(17, 30)  # medium sizes
     variants = []
     for j in range(nv):
         nal = rng.choice([2, 2, 3, 4])
